@@ -25,7 +25,7 @@ BUFSIZES = [1, 2, 3, 7, 16, 61, 4096, 8192]
 SIMPLE_KNOBS = dict(tuning_const=None, pipe_t0_zero=True, sm_lcm_cap=None, bms_odd_tempo_subdiv=None, platform="posix", path_type="str", stored_newline="lf", dest_state="absent", text_chunk=8192, faults="off")
 MAX_SHORT_CALLS = 200
 
-FILE_PROPS = {"C01", "C02", "C03", "C04", "C05", "C06", "C07", "C09", "C13", "C14", "C15"}
+FILE_PROPS = {"C01", "C02", "C03", "C04", "C05", "C06", "C07", "C08", "C09", "C13", "C14", "C15"}
 
 
 def draw_knobs(r: random.Random, prop: str, tier: str) -> dict:
